@@ -57,7 +57,7 @@ def run(ctx, rep):
     check_literal_constants(ctx, rep, 'R10.7')
     rep.rule('R10.6', 'operands of the fused instructions are not truncated (a constant index that does not fit selects another constant)')
     from rules import c02
-    c02.check_casts(ctx, rep, 'R10.6', only=('compiler::Compiler::compile_const_var_infix_expression', 'compiler::Compiler::add_constant'))
+    c02.check_casts(ctx, rep, 'R10.6', only=(tables.fused_fn(ctx.facts()).path, 'compiler::Compiler::add_constant'))
 
 
 def check_fused_equals_generic(ctx, rep, r1, r3=None):
